@@ -1,7 +1,8 @@
 SPECIFICATION Spec
 CONSTANTS
-  Pairs <- PairsTiny
-  AllPython = FALSE
+  Pairs <- PairsRefQuick
+  AllPython = TRUE
   Dump = FALSE
 INVARIANT RefShape
+INVARIANT ImplAgrees
 CHECK_DEADLOCK FALSE
